@@ -82,7 +82,31 @@ func genDefect(t *rapid.T) defect {
 		}
 		i := rapid.IntRange(0, len(ms)).Draw(t, "pos")
 		ms = append(ms[:i], append([]string{bad}, ms[i:]...)...)
-		return defect{"unknown-method", fmt.Sprintf("methods %q %s", ms, path), func(r *rux.Router) { r.Add(path, noop, ms...) }}
+		style := rapid.IntRange(0, 3).Draw(t, "unknownMethodStyle")
+		return defect{"unknown-method", fmt.Sprintf("methods %q %s (style %d)", ms, path, style), func(r *rux.Router) {
+			switch style {
+			case 1:
+				// a prepared route; the caller reuses the slice it passed (now it holds valid names only) before attaching
+				own := append([]string(nil), ms...)
+				rt := rux.NewRoute(path, noop, own...)
+				for i := range own {
+					own[i] = "GET"
+				}
+				rt.AttachTo(r)
+			case 2:
+				// rejected once, rejected again: the same route value offered to a second router after the first refused it
+				rt := rux.NewRoute(path, noop, ms...)
+				func() {
+					defer func() { _ = recover() }()
+					rt.AttachTo(rux.New())
+				}()
+				rt.AttachTo(r)
+			case 3:
+				rux.NewNamedRoute("n", path, noop, ms...).AttachTo(r)
+			default:
+				r.Add(path, noop, ms...)
+			}
+		}}
 	case 3:
 		re := rapid.SampledFrom(capturing).Draw(t, "re")
 		q := withVarRegex(t, p, re)
